@@ -143,6 +143,43 @@ func TypedSubtype(v interface{}, st string) Arg {
 	}
 }
 
+// valueArg is NamedSubtype (or, for an empty name, TypedSubtype) for a value
+// that we hold as a reflect.Value. Unlike those, it keeps the static type of
+// the value: going through interface{} would turn a value of an interface
+// type into a value of its dynamic type, and a named value only satisfies a
+// named requirement of exactly its type.
+func valueArg(n string, rv reflect.Value, st string) Arg {
+	return func(a *argBuilder) error {
+		if !rv.IsValid() || (rv.Kind() == reflect.Interface && rv.IsNil()) {
+			return nil
+		}
+
+		n := strings.ToLower(n)
+		switch {
+		case n != "" && st == "":
+			a.named[n] = rv
+
+		case n != "":
+			if a.namedSub[n] == nil {
+				a.namedSub[n] = map[string]reflect.Value{}
+			}
+			a.namedSub[n][st] = rv
+
+		case st == "":
+			a.typed[rv.Type()] = rv
+
+		default:
+			rt := rv.Type()
+			if a.typedSub[rt] == nil {
+				a.typedSub[rt] = map[string]reflect.Value{}
+			}
+			a.typedSub[rt][st] = rv
+		}
+
+		return nil
+	}
+}
+
 // Converter specifies one or more converters to use if necessary.
 // A converter will be used if an argument type doesn't match exactly.
 func Converter(fs ...interface{}) Arg {
